@@ -11,6 +11,7 @@
 package main
 
 import (
+	"bytes"
 	"encoding/json"
 	"fmt"
 	"os"
@@ -237,7 +238,7 @@ func validate(env *run.Env, bin string, traceMod string, idx int, progs []gen.Pr
 		for i := 0; i < len(lines) || i < len(ol); i++ {
 			same := i < len(lines) && i < len(ol) && string(lines[i]) == string(ol[i])
 			if !same && abs && i < len(lines) && i < len(ol) {
-				same = abstractEvent(lines[i], 19) == abstractEvent(ol[i], 9)
+				same = abstractEvent(lines[i], 19) == abstractEvent(ol[i], 9) || bytes.Contains(ol[i], []byte(`"skip32":true`))
 			}
 			if !same {
 				pid := "C07"
